@@ -361,15 +361,17 @@ class Frame:
             if self.ev.explore_handlers and st.handlers:
                 k = self.ev.fresh.get('try', 0) + 1
                 self.ev.fresh['try'] = k
-                if self.ev.decide(f'raises(try#{k})'):
-                    # the protected block failed at its first operation: none of its effects, then the (first) handler
-                    h = st.handlers[0]
-                    if h.name:
-                        self.locals[h.name] = Opaque('exc')
-                    self.ev.events.append(('except', k, st, tuple(self.ev.ctx)))
-                    self.block(h.body)
-                    self.block(st.finalbody)
-                    return
+                for hi, h in enumerate(st.handlers):
+                    hname = 'any' if h.type is None else norm_src(h.type).split('.')[-1]
+                    atom = f'raises(try#{k})' if hi == 0 else f'raises(try#{k}):{hname}'
+                    if self.ev.decide(atom):
+                        # the protected block failed at its first operation: none of its effects, then this handler
+                        if h.name:
+                            self.locals[h.name] = Opaque('exc')
+                        self.ev.events.append(('except', k, st, hname, tuple(self.ev.ctx)))
+                        self.block(h.body)
+                        self.block(st.finalbody)
+                        return
             try:
                 self.block(st.body)
             except Raised as r:
@@ -531,9 +533,15 @@ class Frame:
             except AnalysisError:
                 pass
         try:
-            self.block(st.body)
-        except (_Break, _Continue):
-            pass
+            try:
+                self.block(st.body)
+                ended = 'next'
+            except _Continue:
+                ended = 'next'
+            except _Break:
+                ended = 'break'
+            # the state in which this (arbitrary) iteration hands over to the next one / leaves the loop
+            self.ev.events.append(('iterend', st, ended, {k: self.locals.get(k) for k in sorted(bound)}, tuple(self.ev.ctx)))
         finally:
             self.ev.ctx.pop()
         for k, v in list(self.locals.items()):
